@@ -246,7 +246,7 @@ def run(ctx):
     if ctx.tier == 'quick':
         order = list(range(len(U)))
         rnd.shuffle(order)
-        chosen = sorted(order[:260])
+        chosen = sorted(order[:800])
     else:
         chosen = range(len(U))
     idx = 0
@@ -261,8 +261,9 @@ def run(ctx):
         params, ret = decorate(rnd, U[j])
         check_signature(ctx, params, ret, rnd)
         if ctx.tier == 'thorough':
-            params, ret = decorate(rnd, U[j])
-            check_signature(ctx, params, ret, rnd)
+            for _ in range(5):
+                params, ret = decorate(rnd, U[j])
+                check_signature(ctx, params, ret, rnd)
     if ctx.tier == 'thorough':
         ctx.exhaustive['support: every parameter list of U({a,b,c},3) (metadata seeded)'] = done
     if ctx.shard == 0:
